@@ -21,7 +21,7 @@ from formulaic.utils.sentinels import MISSING, MissingType
 from .errors import FormulaInvalidError
 from .model_matrix import ModelMatrix
 from .parser import DefaultFormulaParser
-from .parser.types import FormulaParser, OrderedSet, Term
+from .parser.types import Factor, FormulaParser, OrderedSet, Term
 from .utils.calculus import differentiate_term
 from .utils.deprecations import deprecated
 from .utils.structured import Structured
@@ -534,24 +534,26 @@ class SimpleFormula(
         evaluation context rather than the data context.
         """
 
-        variables: list[Variable] = [
-            variable
-            for term in self.__terms
-            for factor in term.factors
-            for variable in get_expression_variables(factor.expr, {})
-            if "value" in variable.roles
-        ]
-
         # Filter out constants like `contr` that are already present in the
         # TRANSFORMS namespace.
         from formulaic.transforms import TRANSFORMS
 
-        return set(
-            filter(
-                lambda variable: variable.split(".", 1)[0] not in TRANSFORMS,
-                Variable.union(variables),
-            )
-        )
+        variables: list[Variable] = []
+        for term in self.__terms:
+            for factor in term.factors:
+                if factor.eval_method is Factor.EvalMethod.LOOKUP:
+                    # The name of a looked-up factor is a key of the data (or
+                    # context), not Python code: report it as it is.
+                    variables.append(Variable(factor.expr, roles=["value"]))
+                elif factor.eval_method is Factor.EvalMethod.PYTHON:
+                    variables.extend(
+                        variable
+                        for variable in get_expression_variables(factor.expr, {})
+                        if "value" in variable.roles
+                        and variable.split(".", 1)[0] not in TRANSFORMS
+                    )
+
+        return Variable.union(variables)
 
     def __repr__(self) -> str:
         return " + ".join([str(t) for t in self.__terms])
